@@ -33,7 +33,7 @@ type wrapper struct {
 	kind int
 }
 
-var kindNames = []string{"", "?", "x", "", "??"}
+var kindNames = []string{"", "?", "x", "", "??", "|x"}
 
 // tokRune is the first rune of token i: kind 3 is a LINE BREAK token (a grammar that consumes line breaks itself,
 // as line-oriented languages do), every other kind starts with the i-th letter
@@ -53,6 +53,10 @@ func tokenParser(i, kind int) parsley.Parser {
 		return combinator.SeqOf(terminal.Rune(tokenRunes[i]), terminal.Rune('x')).Bind(concatInterp)
 	case 3:
 		return terminal.Rune('\n')
+	case 5:
+		// a token with two readings that end at different places: Any(Rune(c), SeqOf(Rune(c), Rune('x'))); a right trim
+		// has to judge and skip the run behind EACH alternative
+		return combinator.Any(terminal.Rune(tokenRunes[i]), combinator.SeqOf(terminal.Rune(tokenRunes[i]), terminal.Rune('x')).Bind(concatInterp))
 	case 4:
 		// combinator.Optional: when absent it hands back the empty match TOGETHER with its operand's error; used
 		// without trims only (what a trim does around a result that comes with an error is outside the statement)
@@ -109,11 +113,15 @@ func buildSeq(ws []wrapper) parsley.Parser {
 	ps := make([]parsley.Parser, len(ws))
 	for i, w := range ws {
 		p := tokenParser(i, w.kind)
-		if w.hasL {
-			p = text.LeftTrim(p, w.l)
-		}
-		if w.hasR {
-			p = text.RightTrim(p, w.r)
+		if w.hasL && w.hasR && w.l == text.WsSpacesNl && w.r == text.WsSpacesNl {
+			p = text.Trim(p) // the helper IS this combination
+		} else {
+			if w.hasL {
+				p = text.LeftTrim(p, w.l)
+			}
+			if w.hasR {
+				p = text.RightTrim(p, w.r)
+			}
 		}
 		ps[i] = p
 	}
@@ -131,6 +139,9 @@ func buildSeq(ws []wrapper) parsley.Parser {
 func buildSeqAlt(ws []wrapper) parsley.Parser {
 	wrap := func(i int) parsley.Parser {
 		p := tokenParser(i, ws[i].kind)
+		if ws[i].hasL && ws[i].hasR && ws[i].l == text.WsSpacesNl && ws[i].r == text.WsSpacesNl {
+			return text.Trim(p)
+		}
 		if ws[i].hasL {
 			p = text.LeftTrim(p, ws[i].l)
 		}
@@ -181,6 +192,7 @@ type c10Expect struct {
 	tokStart []int
 	tokEnd   []int
 	absent   []bool // optional token not there: the node is an empty match
+	long     []int  // tokens of kind 5 read in their long form (a non-terminal of two runes)
 }
 
 // c10Spec is the left-to-right specification: each trim sees the maximal run at its position.
@@ -230,6 +242,13 @@ func c10Spec(ws []wrapper, d []byte) c10Expect {
 			pos++
 			if w.kind == 2 {
 				pos++
+			}
+			if w.kind == 5 && pos < len(d) && d[pos] == 'x' {
+				// both readings exist; only the long one can be continued (nothing else consumes the x): the parse
+				// succeeds exactly when the long reading does, which failure is reported is the sequence's policy
+				pos++
+				ambiguous = true
+				e.long = append(e.long, i)
 			}
 		}
 		tokEnd := pos
@@ -346,10 +365,22 @@ func c10One(res *explore.Result, ws []wrapper, p parsley.Parser, input string, a
 				}
 				continue
 			}
-			if ws[i].kind == 2 {
-				if _, isNT := c.(parsley.NonTerminalNode); !isNT || int(c.Pos())-base != exp.tokStart[i] || int(c.ReaderPos())-base != exp.tokEnd[i] {
+			isLong := false
+			for _, li := range exp.long {
+				isLong = isLong || li == i
+			}
+			if ws[i].kind == 2 || isLong {
+				nt, isNT := c.(parsley.NonTerminalNode)
+				if !isNT || int(c.Pos())-base != exp.tokStart[i] || int(c.ReaderPos())-base != exp.tokEnd[i] {
 					res.Violate("wrong-token-span", fmt.Sprintf("%s: phrase %d is %v<%d,%d>, expected <%d,%d> (own start, end moved only by a right trim)", where, i, c.Token(), int(c.Pos())-base, int(c.ReaderPos())-base, exp.tokStart[i], exp.tokEnd[i]), cs)
 					return
+				}
+				// the two runes INSIDE the phrase are not trimmed by anything: they keep their own spans
+				for k, kid := range nt.Children() {
+					if len(nt.Children()) != 2 || int(kid.Pos())-base != exp.tokStart[i]+k || int(kid.ReaderPos())-base != exp.tokStart[i]+k+1 {
+						res.Violate("wrong-token-span", fmt.Sprintf("%s: rune %d inside phrase %d spans <%d,%d>, expected <%d,%d> (only the right-trimmed node's own end moves)", where, k, i, int(kid.Pos())-base, int(kid.ReaderPos())-base, exp.tokStart[i]+k, exp.tokStart[i]+k+1), cs)
+						return
+					}
 				}
 				continue
 			}
@@ -469,6 +500,8 @@ func c10Run(env *explore.Env) *explore.Result {
 								variants = []string{c, ""}
 							case 2:
 								variants = []string{c + "x", c}
+							case 5:
+								variants = []string{c, c + "x"}
 							case 3:
 								variants = []string{"\n"}
 							}
@@ -514,6 +547,9 @@ func c10Run(env *explore.Env) *explore.Result {
 				}
 				if pl.kinds && !w.hasL && !w.hasR {
 					kinds = append(kinds, 4)
+				}
+				if pl.kinds && (!w.hasL || (w.hasR && w.l == text.WsSpacesNl && w.r == text.WsSpacesNl)) {
+					kinds = append(kinds, 5) // under a right trim or bare (a left trim in front adds nothing new)
 				}
 				for _, kd := range kinds {
 					w.kind = kd
